@@ -197,3 +197,164 @@ void h_double (void)
 	if (hC > hD) CANARY ("innermost node leaning left"); else if (hC < hD) CANARY ("innermost node leaning right"); else CANARY ("innermost node even");
 }
 #endif
+
+/* ------------------------------------------------------------------ AVL retrace step lemmas (unbounded in the subtree heights)
+ * pp_tree_avl_balance_insert / _remove walk from the changed subtree N towards the root; at every node P on the way they either
+ * stop (P's height is what it was), rotate (and stop, or for a removal possibly go on) or adjust P's factor and go on.  What one
+ * step does depends on a fixed window only: P, N, N's sibling S and -- for the rotations -- the inner child and grandchild.  The
+ * harness builds that window with all hanging subtrees opaque (a node object with an arbitrary interior and a ghost height of any
+ * value), stored factors = real height differences everywhere except at P, whose factor is still the one from BEFORE the height
+ * of N changed by one, and runs the REAL loop.  Where the loop would go on above P, P is made the root (the continuation is the
+ * same step one level up: that induction over the path is the meta-argument, not checked here); where it stops at P, the node
+ * above is arbitrary.  Obligation: afterwards every node of the window stores its real height difference, which lies in -1..1,
+ * all links are consistent, and the height of the window is the old one, or differs by one exactly when the loop goes on. */
+#ifndef ROT_RB
+#define NSUB 8
+N *g_sub[NSUB]; int g_subh[NSUB]; int g_nsub; _Bool g_ok_bf, g_ok_links;
+static void reg_sub (N *n, int h) { if (n != NULL && g_nsub < NSUB) { g_sub[g_nsub] = n; g_subh[g_nsub] = h; g_nsub++; } }
+static N *mk_sub_reg (int *h, N *parent) { N *n = mk_sub (h, parent); reg_sub (n, *h); return n; }
+static int sub_h (N *n, _Bool *is) { for (int i = 0; i < NSUB; i++) if (i < g_nsub && g_sub[i] == n) { *is = 1; return g_subh[i]; } *is = 0; return 0; }
+/* evaluation of the window after the call.  The real (non-opaque) nodes of the window are registered; heights are computed
+ * bottom-up in four passes over them (the window is at most three real nodes deep; the fourth pass must not change anything,
+ * which also excludes a cycle); every node but the top must be the child of exactly one registered node, in one slot, with
+ * its parent link pointing back; the top's parent link must point to the node above. */
+#define NREAL 3
+N *g_real[NREAL]; int g_nreal; int g_rh[NREAL];
+static void reg_real (N *n) { if (n != NULL && g_nreal < NREAL) { g_real[g_nreal] = n; g_nreal++; } }
+static int child_h (N *c, N *par)
+{
+	if (c == NULL) return 0;
+	if (c->parent != par) g_ok_links = 0;
+	for (int i = 0; i < NREAL; i++) if (i < g_nreal && g_real[i] == c) return g_rh[i];
+	_Bool is; int h = sub_h (c, &is); if (!is) g_ok_links = 0; return h;
+}
+static unsigned incoming (N *c)
+{
+	unsigned k = 0;
+	for (int i = 0; i < NREAL; i++) if (i < g_nreal) { if ((N *) g_real[i]->base.left == c) k++; if ((N *) g_real[i]->base.right == c) k++; }
+	return k;
+}
+static int eval_window (N *top, N *above)
+{
+	int htop = 0;
+	for (int i = 0; i < NREAL; i++) g_rh[i] = 0;
+	for (int pass = 0; pass < 4; pass++)
+		for (int i = 0; i < NREAL; i++) if (i < g_nreal) {
+			N *r = g_real[i];
+			int hl = child_h ((N *) r->base.left, r), hr = child_h ((N *) r->base.right, r), nh = 1 + max2 (hl, hr);
+			if (pass == 3) {
+				if (nh != g_rh[i]) g_ok_links = 0;
+				if (r->balance_factor != hl - hr || hl - hr > 1 || hl - hr < -1) g_ok_bf = 0;
+				if (r == top) htop = nh;
+			}
+			g_rh[i] = nh;
+		}
+	_Bool top_real = 0;
+	for (int i = 0; i < NREAL; i++) if (i < g_nreal) { if (g_real[i] == top) top_real = 1; if (incoming (g_real[i]) != (g_real[i] == top ? 0u : 1u)) g_ok_links = 0; }
+	for (int i = 0; i < NSUB; i++) if (i < g_nsub && incoming (g_sub[i]) != 1) g_ok_links = 0;
+	if (!top_real || top->parent != above) g_ok_links = 0;
+	return htop;
+}
+/* a real node with two opaque subtrees, or nothing; valid AVL inside */
+static N *mk_inner (int *h, N *parent)
+{
+	if (nondet_bool ()) { *h = 0; return NULL; }
+	N *z = mk (); z->parent = parent; int hl, hr; reg_real (z);
+	LF (z) = (PTreeBaseNode *) mk_sub_reg (&hl, z); RT (z) = (PTreeBaseNode *) mk_sub_reg (&hr, z);
+	__CPROVER_assume (hl - hr >= -1 && hl - hr <= 1); z->balance_factor = SGN (hl - hr);
+	*h = 1 + max2 (hl, hr); return z;
+}
+static N *window_top (void) { return g_G != NULL ? (N *) (g_top_is_left ? g_G->base.left : g_G->base.right) : (N *) g_root; }
+
+void h_avl_insert_step (void)
+{
+	g_nsub = 0; g_nreal = 0;
+	N *P = mk (), *Nn = mk (); reg_real (P); reg_real (Nn);
+	int hS, ho, hi;
+	N *S = mk_sub_reg (&hS, P);
+	N *o = mk_sub_reg (&ho, Nn), *z = mk_inner (&hi, Nn);          /* N: outer subtree opaque, inner child absent or a real node */
+	LF (Nn) = (PTreeBaseNode *) o; RT (Nn) = (PTreeBaseNode *) z; Nn->parent = P;
+	__CPROVER_assume (ho - hi >= -1 && ho - hi <= 1); Nn->balance_factor = SGN (ho - hi);
+	int hN = 1 + max2 (ho, hi);
+	/* N's subtree has just grown by one: N is the new leaf, or it leans (a node that became even did not grow and the loop stopped below) */
+	__CPROVER_assume ((ho == 0 && hi == 0) || ho != hi);
+	LF (P) = (PTreeBaseNode *) Nn; RT (P) = (PTreeBaseNode *) S;
+	int d_old = (hN - 1) - hS;                                     /* P's stored factor: from before the insertion */
+	__CPROVER_assume (d_old >= -1 && d_old <= 1); P->balance_factor = SGN (d_old);
+	mk_above (P);
+	__CPROVER_assume (g_G == NULL || d_old != 0);                  /* the loop goes on above P exactly when P was even: then P is the root here */
+	int h_old = 1 + max2 (hN - 1, hS);
+
+	pp_tree_avl_balance_insert (Nn, &g_root);
+
+	N *top = window_top ();
+	OBL (top != NULL, "AVL insert step: the window is still hanging where it hung");
+	g_ok_bf = g_ok_links = 1;
+	int h_new = eval_window (top, g_G);
+	OBL (g_ok_links, "AVL insert step: every node of the window is linked both ways, the hanging subtrees are all still there");
+	OBL (g_ok_bf, "C13 AVL insert step: every node of the window stores its real height difference, and it lies in -1..1");
+	OBL (h_new == (d_old == 0 ? h_old + 1 : h_old), "C13 AVL insert step: the window keeps its height (stop) unless its top was even (go on: one higher)");
+	check_above (P, top);
+	if (d_old == 1 && ho > hi) CANARY ("single rotation"); if (d_old == 1 && hi > ho) CANARY ("double rotation");
+	if (d_old == -1) CANARY ("lighter side grew: stop"); if (d_old == 0) CANARY ("even node grows: go on");
+}
+
+#ifndef REMCASE
+#define REMCASE 0
+#endif
+void h_avl_remove_step (void)
+{
+	g_nsub = 0; g_nreal = 0;
+	N *P = mk (), *Nn = mk (); reg_real (P);
+	/* N: the subtree that has just become one lower (or the childless node about to be unlinked: new height 0); never looked into */
+	int hN = nondet_int (); __CPROVER_assume (hN >= 0 && hN < MAXH); Nn->parent = P; reg_sub (Nn, hN);
+	/* the sibling, by case (-DREMCASE, three units per side; together they are every window):
+	 *   0  no rotation (P even or leaning towards N): the sibling is never looked into -- absent or opaque
+	 *   1  single rotation (P leans away from N, sibling even or leaning outwards): sibling real, both its subtrees opaque
+	 *   2  double rotation (sibling leaning inwards): sibling and its inner child real, their other subtrees opaque */
+	N *S = NULL; int hS = 0, hso = 0, hsi = 0;
+#if REMCASE == 0
+	S = mk_sub_reg (&hS, P);
+	__CPROVER_assume ((hN + 1) - hS >= 0);
+#else
+	S = mk (); S->parent = P; reg_real (S);
+	N *so = mk_sub_reg (&hso, S);
+#  if REMCASE == 1
+	N *si = mk_sub_reg (&hsi, S);
+	__CPROVER_assume (hsi <= hso);
+#  else
+	N *si = mk_inner (&hsi, S);
+	__CPROVER_assume (hsi > hso);
+#  endif
+	LF (S) = (PTreeBaseNode *) si; RT (S) = (PTreeBaseNode *) so;
+	__CPROVER_assume (hsi - hso >= -1 && hsi - hso <= 1); S->balance_factor = SGN (hsi - hso);
+	hS = 1 + max2 (hsi, hso);
+	__CPROVER_assume ((hN + 1) - hS == -1);
+#endif
+	LF (P) = (PTreeBaseNode *) Nn; RT (P) = (PTreeBaseNode *) S;
+	int d_old = (hN + 1) - hS;                                     /* P's stored factor: from before the removal */
+	__CPROVER_assume (d_old >= -1 && d_old <= 1); P->balance_factor = SGN (d_old);
+	mk_above (P);
+	_Bool stops = d_old == 0 || (d_old == -1 && hsi == hso);       /* P keeps its height: the loop stops here; otherwise it goes on and P is the root */
+	__CPROVER_assume (g_G == NULL || stops);
+	int h_old = 1 + max2 (hN + 1, hS);
+
+	pp_tree_avl_balance_remove (Nn, &g_root);
+
+	N *top = window_top ();
+	OBL (top != NULL, "AVL remove step: the window is still hanging where it hung");
+	g_ok_bf = g_ok_links = 1;
+	int h_new = eval_window (top, g_G);
+	OBL (g_ok_links, "AVL remove step: every node of the window is linked both ways, the hanging subtrees are all still there");
+	OBL (g_ok_bf, "C13 AVL remove step: every node of the window stores its real height difference, and it lies in -1..1");
+	OBL (h_new == (stops ? h_old : h_old - 1), "C13 AVL remove step: the window keeps its height exactly when the loop stops, otherwise it is one lower");
+	check_above (P, top);
+#if REMCASE == 0
+	if (d_old == 0) CANARY ("even node: stop"); if (d_old == 1) CANARY ("heavier side shrank: go on");
+#elif REMCASE == 1
+	if (hsi == hso) CANARY ("single rotation, height kept"); if (hso > hsi) CANARY ("single rotation, one lower");
+#else
+	CANARY ("double rotation");
+#endif
+}
+#endif
